@@ -135,6 +135,8 @@ def mutants(argv):
         res["as_expected"] = (res["observed"] == res["expected"])
         ok = ok and res["as_expected"]
         results.append(res)
+        if res.get("log"):
+            print(res["log"])
         print("%-44s %s %-7s expected=%-6s observed=%-11s %5.1fs %s %s" % (ent["name"], ent["property"], ent["kind"], res["expected"], res["observed"], res.get("wall_s", 0),
                                                                        res.get("suite", ""), ",".join(res.get("classes", []))[:150]), flush=True)
     if not only:
